@@ -363,6 +363,7 @@ class Run:
         self.local_unsubs = 0
         self.inflight_seen = False
         self.cancel_absorbed = False
+        self.unsolicited_seen = False
         self.sync_plan = None
         self.groups = []
         self.nested_issued = []
@@ -463,7 +464,10 @@ class Run:
             if dc != wc:
                 ok = False
                 if l in targets:
-                    if dc > wc and progress:
+                    if dc > wc and wc == 0 and not progress:
+                        self.v("%s/%s/completed-the-request" % (r.kind, what), "a message that is not the request's final reply completed it with %s" % (
+                            short(r.outcome.results[-1:]),), msg=short(msg))
+                    elif dc > wc and progress:
                         self.v("call/reply-progress/future-completed", "a progressive RESULT completed the call's future",
                                results=short(r.outcome.results), msg=short(msg))
                     elif dc > wc:
@@ -1050,6 +1054,8 @@ class Run:
             return
         mode = st["mode"]
         if mode == "progress" and not (rq.kind == "call" and (rq.spec.get("opts") or {}).get("on_progress")):
+            if rq.kind == "call" and st.get("unsolicited"):
+                return self.do_unsolicited_progress(rq, st)
             R.count("skipped_steps")
             return
         msg, args, kwargs = self.build_reply(rq, st)
@@ -1111,8 +1117,45 @@ class Run:
                     R.count("own_reply_completions_after_inflight_delivery")
                 if self.cancel_absorbed:
                     R.count("own_reply_completions_after_absorbed_reply")
+                if self.unsolicited_seen and rq.kind == "call" and not opts.get("on_progress"):
+                    R.count("final_replies_after_unsolicited_progress")
             R.seen("reply_shapes", "%s:%s:%s" % (rq.kind, mode, self.shape_class(args, kwargs)))
         self.check_tables("after %s for %s" % (what, rq.kind))
+
+    # -- progressive RESULT nobody asked for ----------------------------------------------------------------------------------
+    def do_unsolicited_progress(self, rq, st):
+        """RESULT with details.progress=true for a pending call that has NO progress handler (the CALL carried no receive_progress: a
+        misbehaving router/callee, or a progress reply bearing the wrong id).  It is not the call's reply: it must not complete the call
+        (nor anything else).  Ignoring it or failing the transport as a PROTOCOL violation (1002) are both accepted; an internal error
+        (1011) is not.  If the session survives, the genuine final reply must still complete the call (checked by the later steps)."""
+        R = self.R
+        msg, args, kwargs = self.build_reply(rq, st)
+        cls = "no-options" if rq.spec.get("opts") is None else "options-without-handler"
+        snap = self.snap()
+        self.rp.send(msg)
+        self.nontrivial = True
+        R.count("unsolicited_progress_delivered")
+        R.seen("unsolicited_progress_classes", cls)
+        if not self.diff(snap, targets={rq.label: 0}, what="unsolicited-progress", msg=msg):
+            self.dead = True          # the model and the session disagree about the call from here on
+            return
+        f = self.failed()
+        if f:
+            R.seen("close_codes", "unsolicited-progress:%s:%s" % (f["how"], f.get("code")))
+            if f["how"] == "close-frame" and f["code"] != 1002:
+                self.v("call/unsolicited-progress/internal-error/%s" % cls,
+                       "a progressive RESULT for a call without progress handler failed the transport with close code %r (%s) instead of being "
+                       "ignored or treated as a protocol violation" % (f["code"], f.get("reason")), msg=short(msg))
+            else:
+                R.count("unsolicited_progress_failed_transport")
+            self.dead = True
+            return
+        extra = self.rp.recv()
+        if extra:
+            self.v("call/unsolicited-progress/unexpected-wire-message", "the session sent messages in reaction to it", msgs=short(extra))
+        R.count("unsolicited_progress_ignored")
+        self.unsolicited_seen = True
+        self.check_tables("after unsolicited progress")
 
     # -- call cancellation ----------------------------------------------------------------------------------------------
     def do_cancel(self, st):
